@@ -9,6 +9,15 @@ Tie: generated call schedules are run on the real fe_process_int16 / fe_process_
 (harness/h_c06.c, ASan/UBSan, asserts on, every call in a fresh exact-size heap block) and on the
 model's own definitions (ssdriver c06); the per-call (dry-run count, consumed, frames written,
 num_overflow_samps) records and the totals are diffed.
+Size relations: besides the schedules anchored at the model's branch points, a cross product of chunk lengths around
+every integer-width boundary of the C types (2^8, 2^15, 2^16, k*2^16 + small), output limits 0..3 and carried-over
+counts (0, 1, shift-1, shift, size-1, after frames) is run on synthesised signals of up to ~400 000 samples
+(`width_family`), and output limits around 2^8 / 2^15 / 2^16 on a front end with a 4-sample shift
+(`limit_width_ops`).  For signals longer than 20 000 samples the driver evaluates the closed form
+`runClosed` (Model/FeBufClosed.lean), proved equal to the list model for every schedule (C06_call_log_closed).
+Static tie: tools/gen_fewidths.py regenerates the width of every integer declaration / conversion of the
+bookkeeping functions from the clang AST; C06_count_types_at_least_32_bits (Props/C06Closed.lean) must still
+check, and C06_quantities_fit_c_types bounds every per-call quantity of the model for chunk lengths < 2^31.
 Oracle (the property on the implementation): the cepstra of every schedule are compared bitwise
 (memcmp) with the single-call int16 reference, which is itself compared with the float32 single
 call and with the canonical windows [k*shift, min(k*shift+size, N)) read directly through
@@ -82,8 +91,22 @@ LEGACY = finding_open()
 def run_both(binp, ops, legacy=None, timeout=1800):
     legacy = LEGACY if legacy is None else legacy
     text = "\n".join(ops) + "\n"
-    rc, out, err = vlib.run_bin(binp, stdin_text=text, timeout=timeout)
-    rc2, mout, merr = run_driver(text, legacy, timeout)
+    # the two sides are independent processes: run them side by side
+    import threading
+    box = {}
+
+    def model():
+        try:
+            box["m"] = run_driver(text, legacy, timeout)
+        except Exception as e:      # timeout etc.: reported as a driver failure by the caller
+            box["m"] = (-1, "", f"model driver: {e}")
+    th = threading.Thread(target=model)
+    th.start()
+    try:
+        rc, out, err = vlib.run_bin(binp, stdin_text=text, timeout=timeout)
+    finally:
+        th.join()
+    rc2, mout, merr = box["m"]
     return (rc, out, err), (rc2, mout, merr)
 
 
@@ -216,6 +239,132 @@ def gen_schedule(rng, size, shift, stats, allow_big):
     if rng.chance(0.15):
         specs.insert(rng.below(len(specs) + 1), (0, gen_limits(rng, stats)))
     return N, specs, endroom, mode
+
+
+# ---------------------------------------------------------------------------
+# size relations: chunk lengths around the integer-width boundaries of the C types
+
+# widths that occur in the sample bookkeeping of fe_interface.c / fe.h: uint8 fields, int16 frame_size /
+# frame_shift (and the int16 samples themselves), uint16 = what a careless helper would take, then int /
+# int32 / size_t (2^31, 2^32: buffers of 4 GB and more — not run; the width of every count-typed declaration
+# is tied statically instead, C06_count_types_at_least_32_bits).  k * 2^16 + small: a count that wrapped
+# modulo 2^16 and became *small* again.
+WIDTH_BASES = [("2^8", 1 << 8), ("2^15", 1 << 15), ("2^16", 1 << 16), ("2*2^16", 2 << 16), ("3*2^16", 3 << 16),
+               ("5*2^16", 5 << 16)]
+
+
+def py_call_closed(size, shift, o, n, L, slack=1):
+    """callClosed of lean/SSVerif/Model/FeBufClosed.lean (used for coverage measurement only, never as an oracle)"""
+    if n + o < size:
+        return n, 0, o + n, None
+    if L == 0:
+        return 0, 0, o, None
+    f = min(1 + (n + o - size) // shift, L)
+    p = size - o + (f - 1) * shift
+    if o <= f * shift:
+        used, path = p + min(shift - slack, n - p), "create"
+    else:
+        used, path = min(n, size + f * shift - o - slack), "append"
+    return used, f, o + used - f * shift, path
+
+
+def width_offsets(rng, size, shift, quick):
+    """offsets d of the chunk length from a width boundary W (length = W + d): the boundary itself, and the
+    relations of (length mod W) to the buffer sizes the C code compares it with"""
+    fixed = [-1, 0, 1, rng.range(2, max(2, shift - 1))]
+    more = [shift - 1, shift, max(2, size - shift), size - 1, size, rng.range(size, 3 * size), -shift, -size]
+    if quick:
+        rng.shuffle(more)
+        more = more[:2]
+    return sorted(set(fixed + more))
+
+
+def width_carries(rng, size, shift):
+    """first-chunk lengths that leave 0, 1, shift-1, shift, size-1 samples carried over (overflow_append), and one
+    that leaves size-shift+r after some frames were emitted (create_overflow_frame)"""
+    direct = sorted({0, 1, max(0, shift - 1), min(shift, size - 1), size - 1})
+    after = size + rng.range(0, 3) * shift + rng.range(0, shift - 1)
+    return [(a, "%d" % a if a in (0, 1) else "shift-1" if a == shift - 1 else "shift" if a == shift
+             else "size-1" if a == size - 1 else str(a)) for a in direct] + [(after, "after-frames")]
+
+
+def width_family(rng, cid, sizes, bases, quick, stats, enc_flip):
+    """ops for one configuration: for every length L = W + d, every output limit 0..3 of the first call on the long
+    chunk and every carried-over count, the schedule  [carry chunk] [L : limit] [tail]"""
+    size, shift = sizes[cid]
+    ops = [cfg_line(cid, sizes)]
+    carries = width_carries(rng, size, shift)
+    amax = max(a for a, _ in carries)
+    nrun = 0
+    for label, W in bases:
+        for d in width_offsets(rng, size, shift, quick):
+            L = W + d
+            if L < 1:
+                continue
+            t0 = rng.choice([0, 1, shift, size + 1])
+            N = L + amax + t0
+            ops.append(f"sig {N} {rng.below(1 << 30)} {rng.below(4)}")
+            for a, alabel in carries:
+                for limit in (0, 1, 2, 3):
+                    specs = ([(a, [])] if a else []) + [(L, [limit])]
+                    tail = N - a - L
+                    if tail:
+                        specs.append((tail, []))
+                    enc = "if"[(nrun + enc_flip) % 2]
+                    ops.append(run_line(enc, 1, specs))
+                    nrun += 1
+                    stats["runs"] += 1
+                    stats["enc"][enc] += 1
+                    stats["distinct"].add((cid, N, spec_str(specs), enc))
+                    stats["by_boundary"][label] = stats["by_boundary"].get(label, 0) + 1
+                    stats["by_limit"][str(limit)] = stats["by_limit"].get(str(limit), 0) + 1
+                    stats["by_carry"][alabel] = stats["by_carry"].get(alabel, 0) + 1
+                    # which path the limited call takes, and whether a w-bit count of the chunk length would change
+                    # what it stashes (measured on the closed form of the model)
+                    o = a if a < size else py_call_closed(size, shift, 0, a, 1 << 40)[2]
+                    used, f, o2, path = py_call_closed(size, shift, o, L, limit)
+                    k = "limited call: " + (path or ("no output room" if limit == 0 and L + o >= size else "buffers only"))
+                    stats["paths"][k] = stats["paths"].get(k, 0) + 1
+                    for w in (8, 15, 16):
+                        if L >= (1 << w) and py_call_closed(size, shift, o, L % (1 << w), limit)[:3] != (used, f, o2):
+                            kk = f"{path or 'other'}: a {w}-bit chunk length would change the call"
+                            stats["truncation_sensitive"][kk] = stats["truncation_sensitive"].get(kk, 0) + 1
+            # two schedules with arbitrary limits and an arbitrary cut of the long chunk
+            for _ in range(2):
+                a = rng.choice([x for x, _ in carries])
+                cut = rng.range(1, L - 1) if L > 2 else L
+                specs = ([(a, gen_limits(rng, stats["lim"]))] if a else []) + \
+                        [(cut, gen_limits(rng, stats["lim"])), (L - cut, gen_limits(rng, stats["lim"]))]
+                if N - a - L:
+                    specs.append((N - a - L, []))
+                enc = "if"[(nrun + enc_flip) % 2]
+                ops.append(run_line(enc, rng.choice([1, 2]), specs))
+                nrun += 1
+                stats["runs"] += 1
+                stats["enc"][enc] += 1
+                stats["distinct"].add((cid, N, spec_str(specs), enc))
+    return ops
+
+
+def limit_width_ops(rng, cid, sizes, quick, stats):
+    """output limits (and hence frame counts of one call) around 2^8 / 2^15 / 2^16 on a configuration with a tiny
+    frame shift: one chunk with more frames than the limit, limit = boundary + {-1, 0, 1}"""
+    size, shift = sizes[cid]
+    ops = [cfg_line(cid, sizes)]
+    for label, W in (("2^8", 1 << 8), ("2^15", 1 << 15), ("2^16", 1 << 16)):
+        ds = (-1, 0, 1) if (W <= 256 or not quick) else (rng.choice([-1, 0, 1]),)
+        N = size + (W + 40) * shift + rng.range(0, shift - 1)
+        ops.append(f"sig {N} {rng.below(1 << 30)} {rng.below(4)}")
+        for d in ds:
+            a = rng.choice([0, 1, shift, size - 1])
+            specs = ([(a, [])] if a else []) + [(N - a, [W + d, 1])]
+            enc = rng.choice(["i", "f"])
+            ops.append(run_line(enc, 1, specs))
+            stats["runs"] += 1
+            stats["enc"][enc] += 1
+            stats["distinct"].add((cid, N, spec_str(specs), enc))
+            stats["limit_boundaries"][label] = stats["limit_boundaries"].get(label, 0) + 1
+    return ops
 
 
 def spec_str(specs):
@@ -520,12 +669,20 @@ def check(c):
                   "determinism of the compiled per-frame computation (fe_spch_to_frame .. fe_write_frame, incl. the "
                   "noise tracker) as a function of the (window, prior) sequence — the Lean model treats it as opaque",
                   "clang ASan/UBSan as observer of reads outside the buffer handed to a call",
-                  "parametricity: the model is polymorphic in the sample type, the theorems are stated for index samples"]
+                  "parametricity: the model is polymorphic in the sample type, the theorems are stated for index samples",
+                  "tools/gen_fewidths.py (clang-14 JSON AST -> Generated/FeWidths.lean; role classification sample/byte/count)"]
     c.assumptions += ["dither is off (it is random by design)", "input_endian matches the host (no byte swapping)",
                       "fe_end is given room for at least one frame (acmod_end_utt with a full MFCC ring is C07's concern)",
-                      "frame_size >= frame_shift >= 1 as enforced by fe_init; chunk lengths < 2^31 (int casts in fe_process)"]
+                      "frame_size >= frame_shift >= 1 as enforced by fe_init; chunk lengths < 2^31 (int casts in fe_process): "
+                      "C06_quantities_fit_c_types proves that below that bound every per-call quantity of the model fits a "
+                      "32-bit int, C06_count_types_at_least_32_bits ties the widths of the C declarations (clang AST); "
+                      "chunks of 2^31 samples and more are not run and not claimed"]
     if not c.lean_obligations():
-        return
+        # a proof or a source tie (e.g. C06_count_types_at_least_32_bits against the regenerated declaration widths) no
+        # longer checks; that is reported by its own obligation.  If the model driver was built, the search for a
+        # failing input goes on regardless, so that the report can carry a concrete replay.
+        if not any(n.startswith("lake build of the model driver") and ok for n, ok, _ in c.obligations):
+            return
     binp = harness(c)
     # the int16 <-> float32 scaling is exact for all 65536 sample values (finite: a test)
     rc, out, err = vlib.run_bin(binp, stdin_text="rt\n")
@@ -546,9 +703,39 @@ def check(c):
         ops = [l for l in f.read_text().split("\n") if l.strip() and not l.startswith("#")]
         ncorp += sum(1 for o in ops if o.startswith("run "))
         J.batch(ops, f"corpus {f.name}")
+    # size relations: chunk lengths / output limits around the integer-width boundaries (own random stream, so the
+    # schedules below are the same as before for a given seed)
+    wstats = {"runs": 0, "enc": {"i": 0, "f": 0}, "by_boundary": {}, "by_limit": {}, "by_carry": {}, "paths": {},
+              "truncation_sensitive": {}, "limit_boundaries": {}, "configs": [], "lim": {"limits": {}},
+              "distinct": set()}
+    wrng = vlib.Rng(c.seed * 1000003 + 606)
+    quick = c.tier == "quick"
+    B = dict(WIDTH_BASES)
+    if quick:
+        # every offset at 2^16 on the default front end; a sample of the offsets at the other boundaries / front ends
+        plan = [("default", ["2^16"], False), ("default", ["2^15"], True),
+                ("fr50", [wrng.choice(["2*2^16", "3*2^16"])], True),
+                (wrng.choice(["r8k", "r11k", "w50", "nolap", "fr200", "noise"]), ["2^16"], True),
+                (wrng.choice(["tiny", "tinynoise", "small"]), ["2^8"], False)]
+    else:
+        plan = [(cid, [k for k in B if k != "2^8"], False) for cid in ("default", "r8k", "r11k", "fr50", "w50", "nolap",
+                                                                        "fr200", "noise", "r44k")] + \
+               [(cid, ["2^8"] + (["2^15", "2^16"] if cid == "small" else []), False) for cid in ("tiny", "tinynoise", "small")]
+    for i, (cid, labels, few) in enumerate(plan):
+        if not J.ok:
+            break
+        wstats["configs"].append(f"{cid}: {'/'.join(labels)}")
+        ops = width_family(wrng, cid, sizes, [(k, B[k]) for k in labels], few, wstats, c.seed + i)
+        J.batch(ops, f"size-relation family, configuration {cid}, chunk lengths around {'/'.join(labels)}")
+    if J.ok:
+        J.batch(limit_width_ops(wrng, "tiny", sizes, quick, wstats), "size-relation family, output limits around 2^8/2^15/2^16")
+    c.oblige("size-relation family: chunk lengths around the integer-width boundaries (2^8, 2^15, 2^16, k*2^16 + small) "
+             "x output limits 0..3 x carried-over counts (0, 1, shift-1, shift, size-1, after frames): implementation = "
+             "model (closed form, C06_call_log_closed) and cepstra bitwise = single-call reference", J.ok,
+             {k: v for k, v in wstats.items() if k not in ("lim", "distinct")})
     nsched = 6000 if c.tier == "quick" else 120000
     distinct = set()
-    evaluations = ncorp
+    evaluations = ncorp + wstats["runs"]
     per_batch = 600 if c.tier == "quick" else 2000
     done = 0
     big_budget = 12 if c.tier == "quick" else 200
@@ -614,7 +801,7 @@ def check(c):
     c.oblige("the bitwise comparison is discriminating: > 90% of adjacent reference frames differ bitwise",
              (J.refs.get("adjacent_pairs", 0) == 0 or disc > 0.9)
              and not J.refs.get("vacuous"), J.refs)
-    c.cov.update({"evaluations": evaluations + exhaustive, "distinct_nontrivial": len(distinct) + exhaustive,
+    c.cov.update({"evaluations": evaluations + exhaustive, "distinct_nontrivial": len(distinct) + len(wstats["distinct"]) + exhaustive,
                   "rule": "a schedule = (front-end configuration, signal, partition into chunks, per-call output limits, "
                           "encoding); distinct = distinct (size, shift, N, partition+limits, encoding); non-trivial: "
                           "every schedule makes the model take a path through fe_process that the per-call records "
@@ -624,6 +811,7 @@ def check(c):
                   "generator_modes": stats["modes"], "limit_values": stats["limits"],
                   "chunk_length_classes": stats["chunk_len_classes"], "chunks": stats["chunks"],
                   "encodings": stats["enc"], "model_branches_hit": J.branches,
+                  "size_relation_family": {k: v for k, v in wstats.items() if k not in ("lim", "distinct")},
                   "reference_signals": J.refs, "exhaustive_small_scope_schedules": exhaustive, "corpus_runs": ncorp})
 
 
